@@ -39,6 +39,27 @@ class Inconclusive(HarnessError):
     pass
 
 
+# --------------------------------------------------------------------------- solver calls with a hard deadline
+
+
+def timed_check(solver, timeout_ms):
+    """solver.check() with z3's own timeout AND a watchdog that interrupts the context: z3 does not poll its timeout inside
+    some nlsat / FP loops, and a check must never hang.  An interrupted call returns `unknown` (never a verdict)."""
+    import threading
+    if getattr(solver, "_symx_timeout", None) != int(timeout_ms):      # re-configuring a solver is not free: only on change
+        solver.set("timeout", int(timeout_ms))
+        solver._symx_timeout = int(timeout_ms)
+    timer = threading.Timer(timeout_ms / 1000.0 + 3.0, solver.ctx.interrupt)
+    timer.daemon = True
+    timer.start()
+    try:
+        return solver.check()
+    except z3.Z3Exception:
+        return z3.unknown
+    finally:
+        timer.cancel()
+
+
 # --------------------------------------------------------------------------- context
 
 
@@ -99,7 +120,7 @@ class Ctx:
             if extra:
                 s.add(*extra)
             t0 = time.time()
-            r = s.check()
+            r = timed_check(s, self.timeout_ms)
             self.solver_s += time.time() - t0
             self.queries += 1
             m = s.model() if r == z3.sat else None
